@@ -1,6 +1,6 @@
 (* Proofs/ReaderWriters.v — C08, writer half: both writers and the tree serializer. *)
 From Coq Require Import NArith List Bool.
-From XV Require Import Base.Str Spec.XmlNs Model.Writer Model.TreeBuilder Proofs.WriterRefute Proofs.WriterSound.
+From XV Require Import Base.Str Spec.XmlNs Model.Writer Model.TreeBuilder Proofs.WriterSound.
 Import ListNotations.
 
 Theorem tree_serializer_is_lxml_sink : forall cfg user evs, run_tree cfg user evs = run_lxml cfg user evs.
@@ -13,16 +13,4 @@ Theorem writers_and_tree_agree : forall cfg user evs,
 Proof.
   intros cfg user evs Hg Hd. destruct (sinks_agree cfg user evs Hg Hd) as (d & t & H1 & H2 & H3).
   exists d, t. split; [exact H1|]. split; [exact H2|]. split; [exact H3|]. rewrite tree_serializer_is_lxml_sink. exact H3.
-Qed.
-
-(* finding C08-F2: a user map binding the default namespace + an attribute qualified in it: the
-   native writer prints the attribute without prefix (no namespace), the lxml sink (writer and
-   tree serializer) is right *)
-Theorem writers_agree_unguarded_refuted :
-  exists cfg user evs,
-    writer_guard cfg user evs = false
-    /\ native_sound_b cfg user evs = false /\ lxml_sound_b cfg user evs = true.
-Proof.
-  exists default_config, w_default_ns_attribute_user, w_default_ns_attribute_evs.
-  repeat split; vm_compute; reflexivity.
 Qed.
